@@ -455,6 +455,7 @@ var fileFields = struct{ List, Arr, Flag string }{"l", "arr", "withoutSearch"}
 
 func resolveFileFields(pkgs map[string]*packages.Package) {
 	fileFields = struct{ List, Arr, Flag string }{"l", "arr", "withoutSearch"}
+	fileFlagInit, fileFlagPkg = nil, nil
 	pkg := pkgs["internal/model/core"]
 	if pkg == nil || pkg.Types == nil {
 		return
@@ -492,7 +493,72 @@ func resolveFileFields(pkgs map[string]*packages.Package) {
 		if len(flags) == 1 {
 			fileFields.Flag = flags[0]
 		}
+		if len(flags) == 0 {
+			// no boolean: the switch may be a small mode type. It is the field of the per-key list that is set from
+			// the store's exported WithoutSearch when the list is created (fs.index = indexModeOf(tx.WithoutSearch))
+			for _, file := range pkg.Syntax {
+				ast.Inspect(file, func(x ast.Node) bool {
+					as, ok := x.(*ast.AssignStmt)
+					if !ok || len(as.Lhs) != 1 || len(as.Rhs) != 1 {
+						return true
+					}
+					sel, ok := as.Lhs[0].(*ast.SelectorExpr)
+					if !ok {
+						return true
+					}
+					fv, ok := pkg.TypesInfo.Uses[sel.Sel].(*types.Var)
+					if !ok || !fv.IsField() {
+						return true
+					}
+					owns := false
+					for i := 0; i < st.NumFields(); i++ {
+						if st.Field(i) == fv {
+							owns = true
+						}
+					}
+					mentions := false
+					ast.Inspect(as.Rhs[0], func(y ast.Node) bool {
+						if s2, ok := y.(*ast.SelectorExpr); ok && s2.Sel.Name == "WithoutSearch" {
+							mentions = true
+						}
+						return true
+					})
+					if owns && mentions {
+						fileFields.Flag = fv.Name()
+						fileFlagInit = as.Rhs[0]
+						fileFlagPkg = pkg
+						roleNotes = append(roleNotes, "the search switch of core.file is the field "+fv.Name()+" (set from WithoutSearch)")
+					}
+					return true
+				})
+			}
+		}
 	}
+}
+
+// fileFlagInit / fileFlagPkg: when the switch is not a plain boolean, the expression that computes it from the
+// store's WithoutSearch (evaluated by fileFlagVal for both settings).
+var (
+	fileFlagInit ast.Expr
+	fileFlagPkg  *packages.Package
+)
+
+// fileFlagVal is the value of the switch field for a store with / without the search mirror.
+func fileFlagVal(p *Prog, withoutSearch bool) *Val {
+	if fileFlagInit == nil {
+		return boolVal(withoutSearch)
+	}
+	env := &Env{P: p, Pkg: fileFlagPkg, Vars: map[types.Object]*Val{}}
+	env.Hook = func(env *Env, e ast.Expr) (*Val, bool) {
+		if sel, ok := e.(*ast.SelectorExpr); ok && sel.Sel.Name == "WithoutSearch" {
+			return boolVal(withoutSearch), true
+		}
+		return nil, false
+	}
+	if v, err := env.Eval(fileFlagInit); err == nil && v != nil {
+		return v
+	}
+	return boolVal(withoutSearch)
 }
 
 func isNodeSlice(t types.Type) bool {
